@@ -2062,3 +2062,35 @@ Lemma demo_session_outputs :
       [PExecuteWriteRsp]; [PReadByGroupTypeRsp 6 [(1,7,[0;24])]]; [PConfirmation];
       [PFindByTypeValueRsp [(4,4)]]; [PReadRsp [15;24]]; [PNotification 6 [2]; PReadRsp [7;7]] ].
 Proof. vm_compute. reflexivity. Qed.
+
+(** the witnesses in the shape of the property theorems *)
+Lemma never_wedges_refuted :
+  exists st evs, wf_state st = true /\ tx_locked st = false /\ proc_free st = true
+    /\ snd (run V_fixed st evs) = [ [PWriteRsp]; []; [] ]
+    /\ tx_locked (run_state V_fixed st evs) = true.
+Proof.
+  exists demo_state, wedge_history.
+  destruct notif_hook_then_update_wedges as (H1 & H2 & H3 & H4 & H5 & _).
+  repeat split; assumption.
+Qed.
+
+Lemma raising_hook_refuted :
+  exists st r hk, wf_state st = true /\ wf_request 23 r = true /\ is_request r = true
+    /\ snd (server_step st r hk) = [] /\ tx_locked (fst (server_step st r hk)) = false.
+Proof. exists demo_state, (Read 4), raising_read. exact raising_hook_unanswered. Qed.
+
+Lemma written_hook_refuted :
+  exists st r hk, wf_state st = true /\ wf_request 23 r = true /\ hooks_behave hk = true
+    /\ snd (server_step st r hk) = [PWriteRsp; PError 18 4 5].
+Proof. exists demo_state, (Write 4 [1]), written_authent. exact written_hook_two_pdus. Qed.
+
+Lemma nonvacuous :
+  wf_state demo_state = true /\ tx_locked demo_state = false /\ proc_free demo_state = true
+  /\ inputs_ok demo_state demo_session /\ quiet_notif demo_session
+  /\ nth 12 (snd (run V_fixed demo_state (map (fun x => EvReq (fst x) (snd x)) demo_session))) []
+     = [PNotification 6 [2]; PReadRsp [7; 7]].
+Proof.
+  split; [exact demo_wf|]. split; [reflexivity|]. split; [reflexivity|].
+  split; [exact (proj1 demo_session_inputs)|]. split; [exact (proj2 demo_session_inputs)|].
+  rewrite demo_session_outputs. reflexivity.
+Qed.
